@@ -12,22 +12,22 @@ import (
 )
 
 type vEnv struct {
-	d       *Discipline[int]
-	n       int
-	H       uint
-	ps      []uint     // configured priorities, strictly descending
-	foreign uint       // a key that is not a configured priority
-	ins     []chan int // input channel per priority index
-	G       []uint     // ghost: items handed out minus feedback consumed, per priority index
-	Gx      uint       // ghost for the foreign key (a removed priority whose items are still in flight)
-	fb      chan uint
-	out     chan Prioritized[int]
-	cancel  context.CancelFunc
-	stopped bool
-	dropped int
+	d           *Discipline[int]
+	n           int
+	H           uint
+	ps          []uint     // configured priorities, strictly descending
+	foreign     uint       // a key that is not a configured priority
+	ins         []chan int // input channel per priority index
+	G           []uint     // ghost: items handed out minus feedback consumed, per priority index
+	Gx          uint       // ghost for the foreign key (a removed priority whose items are still in flight)
+	fb          chan uint
+	out         chan Prioritized[int]
+	cancel      context.CancelFunc
+	stopped     bool
+	dropped     int
 	pendingAdds []vPendingAdd
 	pendingRmvs []int
-	removed []bool // input i was removed (RemoveInput) and not re-added
+	removed     []bool // input i was removed (RemoveInput) and not re-added
 
 	// stub divider behaviour
 	divCalls  int
